@@ -95,6 +95,11 @@ CHECKS = {
    "fuzzing with an in-target oracle: proptest-generated and seed-mutated byte inputs per target plus enumerated degenerate sets (quick); coverage-guided libFuzzer + ASan campaigns on the same entry functions (thorough)",
    "Eleven byte-level targets decode the input into (parameters, content, drip schedule), build fresh blocks and drive them to quiescence; any unwind out of work()/constructor/parser, an idle spin or a missed step bound is a violation. All bursts up to length 6 (8) over {-1,0,1,inf} for Wpcr/Midpointer and 2322 AU header field mutations are enumerated. The thorough tier builds /verif/harness/fuzz with cargo-fuzz (nightly, ASan) and runs 30k executions per target from the seed corpus in /verif/corpus.",
    "bit-stream consumers get {0,1}; constructor parameter assertions are configuration refusals", "DESIGN.md §5 C15"),
+
+ "C20": ("E3 reference models (modulators) + both runners", "exploration",
+   "round-trip property testing through the whole receive chain (independent HDLC framer + AFSK / G3RUH-FSK modulators -> library receive chains on Graph and MTGraph -> delivered packets == transmitted payloads)",
+   "Generated transmissions (1-8 frames of 10-300 bytes, random and stuffing-heavy, generated phase / symbol timing / amplitude, three resp. two sample rates) are modulated by independent Bell-202 AFSK and G3RUH 2-FSK modulators and fed to the receive chains assembled from library blocks with the examples' parameters, on both runners and two stream sizes; the delivered packets must equal the transmitted payloads exactly, once, in order, and agree between runners.",
+   "9600 chain uses the ZeroCrossing block; trailing flags follow the last frame (no end-of-input flush); noiseless signals", "DESIGN.md §5 C20"),
 }
 
 NOT_YET = {}
